@@ -37,7 +37,7 @@ for p in props:
         + ". Trusted: rustc/Kani codegen, CBMC, CaDiCaL, the list-based container shim (cfg avra_verif), the environment stubs (fmt::format, env::var_os, slice_error_fail, ASCII to_lowercase), the leaf restriction of Expr::run/clone in instruction-level harnesses (its agreement with the real code on leaves is decided by c05_leaf_*), the reference models in /verif/harness/src validated natively by `replay --selftest`.",
         technique="bounded model checking with Kani/CBMC (SAT) over the compiled crate, differential against an independent reference model, symbolic inputs"))
 na = [
-    ("C08", "attempted: parse_iter/skip with the grammar stubbed did not leave symbolic execution (9 min probe; every Document/DirectiveOps value is an enum of enums on the heap whose match/clone/drop walks all variants, the same wall the pass-level step harness hit in 60 min / 8.8 GB) - no solver verdict could be obtained, so the property is not claimed"),
+    ("C08", "attempted three times: parse_iter/skip with the grammar replaced by a line-code lookup did not leave symbolic execution (symbolic line kinds: 8 GB after 11 min on three lines; fixed program shapes with symbolic condition values, session 3: 1 300 drop-glue recursion cut-offs after 3 min on the 4-line shape) - the Document values the parser stub returns travel through Result<Document, _> and ParseContext's heap segments, where CBMC does not fold enum tags, so every match/clone/drop walks all variants; the stack-backed-input trick that opened the pass loops does not apply because parse_iter builds its own heap state - no solver verdict could be obtained, so the property is not claimed (the native run of the same harness body shows `.if 1 / a / .elif 1 / b / .endif` assembling both branches; reported in DESIGN.md for the maintainers only)"),
     ("C09", "macro expansion is Display of operands -> str::replace -> re-parse through the PEG grammar; formatting must be stubbed and the generated parser does not get through CBMC on symbolic text"),
     ("C11", "the property is about std::fs / Path::exists over directory trees: FFI with no model in Kani; a hand-written file-system stub would be the thing verified"),
     ("C14", "purely a property of the grammar on text; symbolic text of 3-4 bytes through the generated parser did not finish symbolic execution in 15 minutes"),
